@@ -271,7 +271,7 @@ impl Check for FlowFunding {
                         &inc::ExecuteMsg::OpenFlow {
                             start_epoch: s,
                             end_epoch: e,
-                            curve: None,
+                            curve: if declared % 2 == 1 { Some(inc::Curve::Linear) } else { None },
                             flow_asset: asset(&fa, declared),
                             flow_label: if *label { Some(format!("label-{step}")) } else { None },
                         },
